@@ -86,7 +86,7 @@ fn all_text(v: &[HTok]) -> String {
 fn tokens_both(bytes: &[u8], enc: &'static encoding_rs::Encoding) -> Result<(Vec<HTok>, Vec<HTok>), String> {
     let l = match lol_tokens_enc(bytes, &[], TokenCaptureFlags::all(), false, enc) {
         LRes::Ok(t, _) => merge_text_pub(to_htoks(&t)?),
-        LRes::Ambiguity => return Err("ambiguity".into()),
+        LRes::Ambiguity(..) => return Err("ambiguity".into()),
         LRes::Other(e) => return Err(e),
     };
     let s = enc.decode_without_bom_handling(bytes).0.into_owned();
